@@ -74,7 +74,7 @@ class Outcome:
 
 class Part:
     def __init__(self, name, evaluate, strategy=None, examples=0, enumerate=None,
-                 exhaustive=False, note=""):
+                 exhaustive=False, note="", reducible=False):
         self.name = name
         self.evaluate = evaluate
         self.strategy = strategy
@@ -82,6 +82,7 @@ class Part:
         self.enumerate = enumerate
         self.exhaustive = exhaustive
         self.note = note
+        self.reducible = reducible   # the greedy structural reducer keeps cases inside the domain
 
 
 def jdump(x):
@@ -418,7 +419,8 @@ def run_check(mod_name, tier, seed, replay=None, only_part=None):
                 if best is not None:
                     _, case, detail = best
             try:
-                case = _reduce_greedy(part, case, bucket)
+                if part.reducible:
+                    case = _reduce_greedy(part, case, bucket)
                 for b, d in part.evaluate(case).findings:
                     if b == bucket:
                         detail = str(d)[:2000]
@@ -465,8 +467,9 @@ def run_check(mod_name, tier, seed, replay=None, only_part=None):
             "violations": len(out_lines),
         }
         if not only_part:
-            os.makedirs(os.path.join(VERIF, "evidence"), exist_ok=True)
-            with open(os.path.join(VERIF, "evidence", prop_id + ".json"), "w") as f:
+            evdir = os.environ.get("VERIF_EVIDENCE_DIR") or os.path.join(VERIF, "evidence")
+            os.makedirs(evdir, exist_ok=True)
+            with open(os.path.join(evdir, prop_id + ".json"), "w") as f:
                 json.dump(ev, f, indent=1, sort_keys=True)
         print(f"# {prop_id} tier={tier} seed={seed} cases={total['cases']} evaluations={total['evaluations']} "
               f"distinct_nontrivial={len(total['nt'])} violations={len(out_lines)} wall={ev['wall_s']}s")
